@@ -4,6 +4,9 @@ import json, os, subprocess, sys
 ROOT = os.path.dirname(os.path.dirname(os.path.abspath(__file__)))
 
 CLAIMED = {
+ "C11": ("exploration", "property-based testing (proptest) + exhaustive unit-vector / rotation-step enumeration against naive evaluation at the roots psi^(+-3^i)",
+         "Generated-input search: the encoded polynomial of every unit vector (exhaustive N<=128, thorough 512, three plain-modulus sizes) and of random / extreme / short vectors must evaluate to the slot values at the powers +-3^i of the independently computed minimal primitive 2N-th root modulo t; decode/encode are mutually inverse; sums and naive negacyclic products decode to slot-wise sums and products; the automorphism the library associates with every rotation step (all steps for N<=64) must rotate both rows left by that step and step 0 must swap the rows; coefficient encoding reduces modulo t.",
+         "Trusted: u128 arithmetic, refmath minimal-root search, naive convolution.", "DESIGN.md §6 C11"),
  "C06": ("exploration", "property-based differential testing (proptest) of the three API forms of 26 entry points on generated operand states + single-field corruption (fault) injection with a refusal oracle",
          "Generated-input search: operand states (sizes, levels, representations, three schemes) are reached by random build sequences; each of 26 evaluator entry points is executed through its in-place, destination and value-returning forms on identical operands. All forms must agree word for word (or all refuse), read-only operands must be unchanged, results must be valid and accepted by a follow-up operation; then one field of one operand is corrupted (15 ciphertext, 6 plaintext, 2 key corruptions) and every form must refuse. Two genuine validation gaps were found and fixed.",
          "Trusted: ValCheck::is_valid_for as the definition of validity for the follow-up check; any panic is a refusal.", "DESIGN.md §6 C06"),
